@@ -24,7 +24,7 @@ pub enum Case {
 pub struct P;
 
 fn ring_bits_strategy() -> BoxedStrategy<u8> {
-    prop_oneof![4 => Just(15u8), 2 => 8u8..=16, 1 => 0u8..=7].boxed()
+    prop_oneof![4 => Just(15u8), 2 => Just(16u8), 1 => Just(17u8), 2 => 8u8..=14, 1 => 0u8..=7].boxed()
 }
 
 impl Prop for P {
@@ -122,7 +122,7 @@ fn check_any(input: &AnyInput, sched: &DecSched, ring_bits: u8, ring_start: u32,
         cx.class(&format!("fail-state:{}", state_name(r2.final_state)));
     }
     // ring
-    let bits = ring_bits.min(16);
+    let bits = ring_bits.min(17);
     let init = ring_fill(bits, fill_seed);
     let start = ring_start as usize % init.len();
     let vr = ref_inflate(&data, &Opts { window: WindowMode::Ring { init: &init, start }, max_out: 8 << 20, ..Opts::fmt(zl) });
